@@ -399,6 +399,14 @@ def _r2(model, res, c, key):
                 kind = ('instance', val.value.attr)
         lookups.append((stmt, kind))
     kinds = [k[0] if k else None for _, k in lookups]
+    delegated = [stmt for stmt, k_ in lookups if k_ is None and stmt is not None and
+                 any(isinstance(x, ast.Call) and c.cg.sites.get((key, id(x))) for x in ast.walk(stmt))]
+    if ('instance' not in kinds or 'registry' not in kinds) and delegated:
+        # the look-up is a helper of its own (resolve_function(name, self.functions, ...)): the order of its sources is decided by the
+        # interpreted cases of this rule (own table first, registry after a miss, #NAME? for neither), not by the path rule below
+        res.ob('R2', site, 'lookups: delegated to %s' % src(delegated[0])[:60], True, 'undecided here: decided by the interpreted cases')
+        res.notes.append('C09.R2: the function look-up is delegated (%s); path rule skipped' % src(delegated[0])[:60])
+        return
     res.ob('R2', site, 'lookups: %s' % kinds, 'instance' in kinds and 'registry' in kinds)
     if 'instance' not in kinds or 'registry' not in kinds:
         res.violation('R2', '%s:%s:lookup-sources' % key, m.where(f),
@@ -713,6 +721,30 @@ def _r5(model, res, c):
                 for k, val in zip(v.keys, v.values):
                     if isinstance(k, ast.Constant) and k.value in want and isinstance(val, ast.Constant):
                         found[k.value] = val.value
+    if any(k not in found for k in want):
+        # the table is built by a helper / merged from options: run the constructor abstractly and read what the variable callback reads
+        try:
+            from ..absint import Interp, Const, DictV, Unmodelled as _Unm
+            box = {}
+
+            def make(interp, st):
+                parser, _g = H.host_objects(interp, model, c)
+                box['p'] = parser
+                return Const(None)
+            outs = Interp(model).run(make)
+            tables = [v for v in box['p'].attrs.values() if isinstance(v, DictV)] if len(outs) == 1 and not outs[0].imprecise else []
+            for t in tables:
+                hit = dict((k, t.lookup(Const(k))) for k in want)
+                if all(isinstance(x, Const) for x in hit.values()):
+                    found = dict((k, x.value) for k, x in hit.items())
+                    break
+            else:
+                if not tables:
+                    res.ob('R5', '%s:%s.__init__' % (im.name, ic.name), 'predefined names', True, 'undecided: the constructor could not be followed')
+                    return
+        except (_Unm, AnalysisError) as e:
+            res.ob('R5', '%s:%s.__init__' % (im.name, ic.name), 'predefined names', True, 'undecided: %s' % e)
+            return
     for k, v in want.items():
         ok = k in found and found[k] is v
         res.ob('R5', '%s:%s.__init__' % (im.name, ic.name), '%s -> %r' % (k, found.get(k, '<missing>')), ok)
